@@ -243,6 +243,72 @@ func (p *Program) detectRenames() {
 			p.alias[news[0]] = olds[0]
 		}
 	}
+	// struct fields: a field of the confirmed tree that is gone and a new field of the same type in the same struct
+	fieldAlias = map[*types.Var]string{}
+	for _, pk := range p.Pkgs {
+		scope := pk.Types.Scope()
+		for _, name := range scope.Names() {
+			tn, ok := scope.Lookup(name).(*types.TypeName)
+			if !ok {
+				continue
+			}
+			st, ok := tn.Type().Underlying().(*types.Struct)
+			if !ok {
+				continue
+			}
+			known, ok := knownFields[shortName(pk.PkgPath)+"."+name]
+			if !ok {
+				continue
+			}
+			have := map[string]bool{}
+			for i := 0; i < st.NumFields(); i++ {
+				have[st.Field(i).Name()] = true
+			}
+			goneByType := map[string][]string{}
+			for fname, ftype := range known {
+				if !have[fname] {
+					goneByType[ftype] = append(goneByType[ftype], fname)
+				}
+			}
+			newByType := map[string][]*types.Var{}
+			for i := 0; i < st.NumFields(); i++ {
+				f := st.Field(i)
+				if _, was := known[f.Name()]; !was {
+					ts := types.TypeString(f.Type(), nil)
+					newByType[ts] = append(newByType[ts], f)
+				}
+			}
+			for ts, olds := range goneByType {
+				if news := newByType[ts]; len(olds) == 1 && len(news) == 1 {
+					fieldAlias[news[0]] = olds[0]
+				}
+			}
+		}
+	}
+}
+
+// KnownFieldsOf lists the struct types of the module with their fields (for cmd/genknown).
+func (p *Program) KnownFieldsOf() map[string]map[string]string {
+	out := map[string]map[string]string{}
+	for _, pk := range p.Pkgs {
+		scope := pk.Types.Scope()
+		for _, name := range scope.Names() {
+			tn, ok := scope.Lookup(name).(*types.TypeName)
+			if !ok {
+				continue
+			}
+			st, ok := tn.Type().Underlying().(*types.Struct)
+			if !ok {
+				continue
+			}
+			m := map[string]string{}
+			for i := 0; i < st.NumFields(); i++ {
+				m[st.Field(i).Name()] = types.TypeString(st.Field(i).Type(), nil)
+			}
+			out[shortName(pk.PkgPath)+"."+name] = m
+		}
+	}
+	return out
 }
 
 // ModFuncs lists every module function (closures included), sorted by key.
